@@ -643,8 +643,18 @@ def undefine_unused_variables(source: str, preserve: Collection[str] = frozenset
     # support this for the time being.
     class_body_blacklist = set()
     for scope in core.walk(root, ast.ClassDef):
-        for node in core.filter_nodes(scope.body, (ast.Assign, ast.AnnAssign, ast.AugAssign)):
-            class_body_blacklist.update(parsing.assignment_targets(node))
+        # Every name that the class body binds is a class attribute: also the names bound inside
+        # the if, for, with, try and match statements of the body, loop targets and walrus
+        # targets. Functions, lambdas and nested classes have a namespace of their own.
+        stack = list(scope.body)
+        while stack:
+            node = stack.pop()
+            if isinstance(node, ast.Name) and isinstance(node.ctx, ast.Store):
+                class_body_blacklist.add(node)
+            if not isinstance(
+                node, (ast.FunctionDef, ast.AsyncFunctionDef, ast.Lambda, ast.ClassDef)
+            ):
+                stack.extend(ast.iter_child_nodes(node))
 
     yielded = set()
     for name in _iter_unused_names(root):
